@@ -244,6 +244,9 @@ func rootIdent(e ast.Expr) *ast.Ident {
 			e = x.X
 		case *ast.StarExpr:
 			e = x.X
+		case *ast.IndexExpr:
+			// x[i] is rooted at x: an element assignment modifies (the value of) x
+			e = x.X
 		default:
 			return nil
 		}
@@ -922,13 +925,25 @@ func (c *codegen) assign1(lhs, rhs ast.Expr, def bool, at ast.Node) []string {
 				if t.kind == kInvalid {
 					c.fail(at, "value of %s has no type", c.src(rhs))
 				}
+				if c.phase3 {
+					c.checkNoSliceAlias(t, lhs, rhs, at)
+				}
 				v := c.declare(id.Name, t)
 				return []string{fmt.Sprintf("let %s : %s := %s", v.lean, t.lean(), val)}
 			}
 		}
 	}
+	if ix, inner := indexStep(lhs); ix != nil {
+		return c.assignElem(lhs, ix, inner, rhs, at)
+	}
 	v, p := c.path(lhs)
 	t := c.pathType(v, p, lhs)
+	if c.phase3 {
+		c.checkNoSliceAlias(t, lhs, rhs, at)
+	}
+	if c.phase2 {
+		c.checkRangeTarget(v, p, at)
+	}
 	if c.phase2 && len(p) == 0 {
 		if id, ok := lhs.(*ast.Ident); ok {
 			for _, sp := range c.cur.sig.params {
